@@ -441,7 +441,9 @@ def explore(chk, rng, n, tag):
 
 def run(chk):
     rng = random.Random(chk.seed)
-    chk.lean = core.lean_build(["BromeliaVerif.Properties.C08"])
+    import gen_psm
+    chk.tie_notes += gen_psm.generate()[1]       # tie (a): statemachine.py translated to Gen/PsmGen.lean on every run
+    chk.lean = core.lean_build(["BromeliaVerif.Properties.C08", "BromeliaVerif.Properties.C06Gen"])
     chk.rule = ("the real client node under the simulation scheduler; termination causes {local close answered with a DPA, local close "
                 "with a silent peer, valid DPR, DPR with another Disconnect-Cause, abrupt disconnect while open, disconnect during the "
                 "capabilities exchange, connection reset (recv raising ECONNRESET), refused connection} x points {idle, queued outbound, queued inbound, both} x consumer blocked "
